@@ -1,8 +1,8 @@
 package props
 
 import (
-	"go/types"
 	"fmt"
+	"go/types"
 
 	"golang.org/x/tools/go/ssa"
 
